@@ -236,6 +236,36 @@ def main():
 
     known = load_known()
     known_lines = []
+    # Open findings are demonstrated by committed replay files (known/<file>.json).  The seeded search never generates their
+    # trigger (so a known finding cannot mask another violation); each probe is re-executed here and the KNOWN-FINDING line is
+    # printed exactly when the recorded violation class still reproduces.  Nothing is ever added at run time.
+    from .core import load_case
+    from .supervisor import run_forked
+    for k in known:
+        if k.get("property") != machine.pid or k.get("status") != "open" or not k.get("probe"):
+            continue
+        ppath = os.path.join(HERE, k["probe"])
+        try:
+            pcase = load_case(ppath)
+            pres = run_forked(machine, pcase)
+        except Exception as e:
+            print("HARNESS-ERROR: cannot execute known-finding probe %s: %s" % (ppath, e))
+            rc = 2
+            continue
+        if pres.get("status") == "violation" and pres.get("class") == k.get("class"):
+            line = "KNOWN-FINDING: property=%s %s [%s] replay=%s" % (machine.pid, k["what"], k.get("id", ""), ppath)
+            print(line)
+            known_lines.append(line)
+        elif pres.get("status") == "violation":
+            print("vsim: known-finding probe %s now fails differently: class=%s (recorded %s) -- treated as a new violation" % (
+                k["probe"], pres.get("class"), k.get("class")))
+            print("VIOLATION property=%s replay=%s" % (machine.pid, ppath))
+            rc = 1
+        elif pres.get("status") == "pass":
+            print("vsim: known finding [%s] no longer reproduces (probe %s passes)" % (k.get("id", ""), k["probe"]))
+        else:
+            print("HARNESS-ERROR: known-finding probe %s: %s" % (ppath, pres.get("detail", "")[-1500:]))
+            rc = 2
     nviol_reported = 0
     seen_classes = []
     for v in merged["violations"]:
